@@ -143,3 +143,101 @@ def bounded_colspec(budget, rng):
 
 BOUNDED.append(('bounded/colspec-styles', 'each cell takes the alignment of the column it starts in, also to the right of a multicolumn cell',
                 'all column specifications of 2-3 columns over l/c/r x three row shapes (exhaustive); random specs of 2-5 columns with | and random spans', bounded_colspec))
+
+
+# ---------------------------------------------------------------- table shape: rows and cells hold the text written between the separators
+DECLS = ['\\bfseries', '\\itshape', '\\small', '\\ttfamily', '\\em']
+
+
+def gen_table(rng):
+    ncols = rng.randrange(2, 5)
+    rows, src_rows, k = [], [], [0]
+
+    def word():
+        k[0] += 1
+        return 'Wq%dz' % k[0]
+    for _ in range(rng.randrange(1, 5)):
+        cells, texts, left = [], [], ncols
+        while left > 0:
+            r = rng.random()
+            ws = [word() for _ in range(rng.randrange(1, 3))]
+            if r < 0.15 and left >= 2:
+                span = rng.randrange(2, left + 1)
+                cells.append('\\multicolumn{%d}{c}{%s}' % (span, ' '.join(ws)))
+                left -= span
+            else:
+                t = ' '.join(ws)
+                r2 = rng.random()
+                if r2 < 0.25:
+                    t = rng.choice(DECLS) + ' ' + t          # an unbraced declaration: must end with the cell
+                elif r2 < 0.40:
+                    t = '{' + rng.choice(DECLS) + ' ' + ws[0] + '}' + (' ' + ' '.join(ws[1:]) if ws[1:] else '')
+                elif r2 < 0.50:
+                    t = '\\textbf{' + t + '}'
+                cells.append(t)
+                left -= 1
+            texts.append(ws)
+        rows.append(texts)
+        end = rng.choice([' \\\\ ', ' \\\\[2pt] ', ' \\\\* ', '\\\\\n', ' \\tabularnewline '])
+        src_rows.append(' & '.join(cells) + end + rng.choice(['', '', '\\hline ']))
+    last = src_rows[-1]
+    if rng.random() < 0.4:                                     # the final row end is optional
+        for e in (' \\\\ ', ' \\\\[2pt] ', ' \\\\* ', '\\\\\n', ' \\tabularnewline '):
+            if e in last:
+                last = last.replace(e, ' ')
+        src_rows[-1] = last.replace('\\hline ', '')
+    spec = ''.join(rng.choice('lcr') for _ in range(ncols))
+    src = '\\begin{tabular}{%s}%s%s\\end{tabular}' % (spec, rng.choice(['', '\\hline ']), ''.join(src_rows))
+    return dict(src=src, rows=rows, text=src)
+
+
+def check_table(w):
+    import re
+    from util import time_limit
+    t = TeX()
+    t.input('\\documentclass{article}\\begin{document}%s AFTERq\\end{document}' % w['src'])
+    try:
+        with time_limit(20):
+            d = t.parse()
+    except Exception as e:
+        return False, 'parsing raised %s: %s' % (type(e).__name__, e)
+    tabs = d.getElementsByTagName('tabular')
+    if len(tabs) != 1:
+        return False, '%d tabular nodes' % len(tabs)
+    got = []
+    for row in tabs[0]:
+        cells = [re.findall(r'Wq\d+z', c.textContent) for c in row]
+        if any(cells) or len(row) > 0:
+            got.append(cells)
+    while got and not any(got[-1]):
+        got.pop()                                               # the phantom row after the last row end
+    if got != w['rows']:
+        return False, 'rows / cells read %r, written %r' % (got, w['rows'])
+    if 'AFTERq' in tabs[0].textContent or 'AFTERq' not in d.textContent:
+        return False, 'the text after the table is inside it or lost'
+    # no formatting leaks out of a cell: a declaration node lives in the cell it was written in, and the group depth is back
+    if d.context.depth != 1:
+        return False, 'context depth %d after the document' % d.context.depth
+    return True, ''
+
+
+def bounded_table(budget, rng):
+    import time
+    t0, n, seen, samples = time.time(), 0, set(), []
+    while time.time() - t0 < budget or n < 60:
+        w = gen_table(rng)
+        n += 1
+        if w['src'] not in seen:
+            seen.add(w['src'])
+            if len(samples) < 2:
+                samples.append(w['src'][:400])
+        ok, dd = check_table(w)
+        if not ok:
+            return False, n, dd, dict(text=w['src'], rows=w['rows'])
+    return True, n, '', None, dict(distinct=len(seen), samples=samples, rule='random tabulars of the grammar (see bound); distinct = source not seen before')
+
+
+BOUNDED.append(('bounded/table-shape', 'a tabular with r rows yields r rows whose cells hold exactly the words written between the separators, in order; what follows the '
+                'table stays outside it; all groups are closed at the end',
+                'random tabulars: 2-4 columns, 1-4 rows, cells of 1-2 words, multicolumn spans, unbraced / braced font declarations and \\textbf in cells, row ends '
+                '\\\\ / \\\\[len] / \\\\* / \\tabularnewline, \\hline, optional final row end', bounded_table))
